@@ -9,7 +9,7 @@ package contracts
 //@ func slices.Grow
 //@ note trusted: slices.Grow(s, n) panics for n < 0; otherwise returns a slice with the same length and elements and cap >= len+n
 //@ requires n >= 0
-//@ ensures len(result) == len(s) && cap(result) >= len(s) + n
+//@ ensures len(result) == len(s) && cap(result) >= len(s) + n && (ref(result) == ref(s) || fresh(result))
 
 //@ func maps.Clone
 //@ note trusted: maps.Clone returns a fresh map (nil for nil)
